@@ -44,6 +44,7 @@ PLACEMENTS = [
     ("graphdir-inside", "./doc", 4, [("./src", 3, False)], ("./doc/graphs", 4)),
     ("graphdir-separate", "./doc", 4, [("./src", 3, False)], ("./graphs", 13)),
     ("graphdir-absolute", "./out/html", 6, [("./src", 3, False)], ("{T}/elsewhere/gdir", 17)),
+    ("graphdir-above-src", "./doc", 4, [("./lib/src", 15, False)], ("./lib", 14)),      # graphs are ADDED to a directory that also holds the sources
     ("equal-src", "./src", 3, [("./src", 3, True)], None),
     ("above-src", ".", 2, [("./src", 3, True)], None),
     ("symlink-above-src", "./uplink", 2, [("./src", 3, False)], None),
@@ -131,6 +132,12 @@ def run_case(args):
         changed = sorted(k for k in set(before) | set(after) if before.get(k) != after.get(k))
         outside = [k for k in changed if not under(os.path.realpath(os.path.join(T, os.path.dirname(k))) + os.sep + os.path.basename(k), roots)
                    and not under(os.path.join(T, k), roots)]
+        # the inputs survive wherever they stand, also inside the graph directory (only the OUTPUT directory may not hold them)
+        inputs = [os.path.realpath(os.path.join(T, "proj", s_[0])) for s_ in plc[3]] + [os.path.join(T, "proj", x) for x in ("pages", "media", "proj.md")]
+        for k in changed:
+            full = os.path.realpath(os.path.join(T, os.path.dirname(k))) + os.sep + os.path.basename(k)
+            if k not in outside and not under(full, roots[:1]) and under(full, inputs) and before.get(k) is not None and not must_refuse(plc):
+                outside.append(k)
         events = []
         if os.path.exists(log):
             for line in open(log):
